@@ -38,9 +38,9 @@ def obtain_gnd(parsed):
         d = int(d)
         assert n > 0
         assert d > 0
-        assert n >= d
+        assert n > d
     except (TypeError, AssertionError, ValueError):
-        raise ValueError('\'gnd\' expects arguments N d with N >= d > 0')
+        raise ValueError('\'gnd\' expects arguments N d with N > d > 0')
 
     if (n * d) % 2 == 1:
         raise ValueError('\'gnd\' expects arguments N d with even N * d')
